@@ -68,6 +68,13 @@ def cases(tier, seed):
                    "swhere": swhere, "sval": sval, "order": order,
                    "via": vias[(j + n) % 4], "reload": (j // 3 + n) % 4,
                    "const": (j + n) % 3 == 0}
+            if kind == "cases" and n % 4 == 0 and core.pick(
+                    [n, mode, req, swhere, sval, order, "m2"], 3) == 0:
+                yield {"n": n, "mode": mode, "req": req, "kind": "mix2",
+                       "swhere": "ctor" if swhere == "ctor" else None,
+                       "sval": sval if swhere == "ctor" else False,
+                       "order": order, "via": vias[(j + n) % 4],
+                       "reload": (j // 3 + n) % 4, "const": (j + n) % 2 == 0}
             if kind in ("grid", "mix") and core.pick(
                     [n, mode, req, kind, swhere, sval, order], 6) == 0:
                 # the same, after an earlier un-reaped sweep through the
@@ -208,6 +215,10 @@ def make_crop_and_sow(f, d, case, combos, fn_args, cs, constants):
     elif kind == "mix":
         crop.sow_combos(dcombos, cases=[dict(zip(fn_args, c)) for c in cs],
                         constants=constants, verbosity=0, **skw)
+    elif kind == "mix2":
+        crop.sow_cases(fn_args, [tuple(c) for c in cs], constants=constants,
+                       combos=tuple((a, list(v)) for a, v in combos),
+                       verbosity=0)
     elif kind == "cases":
         crop.sow_cases(fn_args, [tuple(c) for c in cs], constants=constants,
                        verbosity=0)
@@ -219,7 +230,13 @@ def make_crop_and_sow(f, d, case, combos, fn_args, cs, constants):
 
 def setup_case(case):
     kind = {"casesdict": "cases"}.get(case["kind"], case["kind"])
-    combos, fn_args, cs = build_inputs(case["n"], kind)
+    if kind == "mix2":
+        # cases crossed with two sub-grid arguments that are not in
+        # alphabetical order (through sow_cases)
+        _, fn_args, cs = build_inputs(case["n"] // 4, "cases")
+        combos = [["z", [2, 1]], ["c", [10, 20]]]
+    else:
+        combos, fn_args, cs = build_inputs(case["n"], kind)
     argnames = list(fn_args or []) + [a for a, _ in (combos or [])]
     constants = {"k": 7} if case["const"] else None
     # signature order = case args then combo args (needed by sow_cases(None))
